@@ -295,6 +295,11 @@ class NP(P.PP):
             if self.peek() == ";":
                 self.eat()
             return ["expr", ["macro", "panic", []]]
+        if v == "!":                                    # a tail expression that starts with `!` (L.LP.stmt takes it for a macro)
+            e = self.expr()
+            if self.peek() != "}":
+                die("expression statement starting with `!` in the middle of a block")
+            return ["expr", e]
         return P.PP.stmt(self)
 
     def if_(self):
